@@ -1,4 +1,4 @@
-(* SkcModel (C03): Groth's argument for a shuffle of known content, non-interactive form.
+(* SkcProveModel (C03): Groth's argument for a shuffle of known content, non-interactive form.
    Anchors: src/GrothVSSHE.cc  GrothSKC::Prove_noninteractive :427-598, GrothSKC::Verify_noninteractive(c, m, in, optimizations)
    :975-1164 (incl. fix 25cc964: 0 <= f_i, z, f_Delta_i, z_Delta < q, and fix e411aec: TestMembership requires c^q = 1).
    Commitments are PedersenModel's (com->CommitBy with timing protection in the prover, com->Verify in the verifier).
@@ -7,7 +7,7 @@
    Every intermediate value of the code is reduced mod com->q, so only residues matter; the model writes each vector entry as
    one expression reduced once (same integer in [0,q)).
    Coins of the prover in the order drawn: r_d, r_Delta, d_1..d_n, Delta_2..Delta_{n-1}, r_a.
-   Definitions only -- proofs in SkcLemmas.v. *)
+   Definitions only -- proofs in SkcProveLemmas.v. *)
 From Coq Require Import ZArith List Bool.
 From LT Require Import Zbase gen_Consts SigmaPrim PedersenModel.
 Import ListNotations.
